@@ -1034,3 +1034,5 @@ def check(run, prog):
     rule_line_split(run, prog, "R-3.6")
     from .c03_comment_layout import rule_comment_layout
     rule_comment_layout(run, prog, "R-3.7")
+    from .snippet_rules import rule_chained_comments
+    rule_chained_comments(run, prog)         # R-3.8
